@@ -1,3 +1,292 @@
-(* placeholder until the C13 theorems are merged *)
-Example C13_placeholder : True. Proof. exact I. Qed.
-Print Assumptions C13_placeholder.
+(* C13 - "the fiddler function emitted by fiddler_from_diff, applied to a copy of the old
+   configuration, produces exactly the configuration that apply_diff produces."
+
+   Model: Fiddler.fiddler_order = the order in which codegen_diff.fiddler_from_diff emits the
+   statements (changes grouped by parent path; inside a group: deletes and remove_tag calls in diff
+   order, then update_callable, then assignments and add_tag calls in diff order);
+   Fiddler.exec_fiddler = every parent path captured in a variable first, then the statements run in
+   that order; Diff.apply_changes = diffing._apply_changes (five global phases).
+   Statements only; proofs are in theories/Fiddler_proofs.v (and Diff_proofs.v).
+
+   Hypotheses, all evaluable booleans (Fiddler_proofs):
+     targets_distinct e h root cs  - no two changes write the same thing on the same object: the pairs
+                    (resolved parent object, argument | dict key | list slot | argument & tag | callable)
+                    of the changes whose parent resolves are pairwise different;
+     heap_wf h    - argument dicts, tag dicts and dicts have distinct keys; tag sets are strictly
+                    sorted lists (the representation of Python sets used by History.tset_add and the
+                    harness);
+     paths_injective e h root cs - two changes whose parents resolve to the same object have the same
+                    parent path (no object is edited through two paths);
+     modifies_in_place e h root cs - every CModify of an argument / dict item finds that argument /
+                    item present in the old object (true of a diff computed by build_diff: a
+                    ModifyValue is emitted for a key that exists);
+     parents : NoDup, containing every parent path (parents_of cs is such a list).
+
+   What is proved:
+     C13_fiddler_agrees_exact  targets_distinct, paths_injective, modifies_in_place: the two heaps are
+                               EQUAL (no well-formedness needed).
+     C13_fiddler_agrees        targets_distinct, heap_wf: the two heaps are equal up to the order of the
+                               entries of argument stores, tag maps and dict items (heap_equiv);
+       .._maps                 the same as finite maps (each key once, same value: heap_rel);
+       .._canon / .._sorted    the same in the normal form the harness compares
+                               (C13Check.canon_node_tags: Codegen.sort_store on the arguments, tag map
+                               sorted by key without empty entries); dict nodes up to Permutation.
+     C13_fiddler_exact_refuted, .._alias  exact equality FAILS without modifies_in_place, and without
+                               paths_injective: appended keys land in a different order.
+     C13_needs_targets_distinct  without targets_distinct the results differ in a value.
+     C13_needs_sorted_tags     heap_wf cannot be dropped from C13_fiddler_agrees.
+     C13_any_parent_order(_exact/_sorted)  the order of the groups does not matter. *)
+From Fiddle Require Import PyBase PySlice Sig ArgStore PyCall Heap Traverse Tags History Diff Fiddler
+  Lang Codegen C02Check C13Check Diff_proofs Fiddler_proofs.
+From Coq Require Import List Permutation Sorting.Sorted.
+Import ListNotations.
+Local Open Scope nat_scope.
+
+(* ------------------------------------------------------------------------------------------ *)
+(* the emitted order *)
+
+(* every change is emitted exactly once *)
+Theorem C13_fiddler_is_permutation : forall cs : list change,
+  Permutation (fiddler_order (parents_of cs) cs) cs.
+Proof. exact Fiddler_proofs.fiddler_is_permutation. Qed.
+Print Assumptions C13_fiddler_is_permutation.
+
+Theorem C13_fiddler_is_permutation_general : forall (cs : list change) (parents : list path),
+  NoDup parents -> (forall c, In c cs -> In (parent_of c) parents) ->
+  Permutation (fiddler_order parents cs) cs.
+Proof. exact Fiddler_proofs.fiddler_order_perm. Qed.
+Print Assumptions C13_fiddler_is_permutation_general.
+
+Theorem C13_parents_of_ok : forall cs : list change,
+  NoDup (parents_of cs) /\ (forall c, In c cs -> In (parent_of c) (parents_of cs)).
+Proof. exact Fiddler_proofs.parents_of_ok. Qed.
+Print Assumptions C13_parents_of_ok.
+
+(* inside a group the stages are in order, and the changes of one stage keep their diff order *)
+Theorem C13_group_order_stages : forall g : list change,
+  StronglySorted (fun a b => stage a <= stage b) (group_order g)
+  /\ (forall k, filter (in_stage k) (group_order g) = filter (in_stage k) g).
+Proof. exact Fiddler_proofs.group_order_stages. Qed.
+Print Assumptions C13_group_order_stages.
+
+(* ------------------------------------------------------------------------------------------ *)
+(* the fiddler against apply_diff *)
+
+(* exact equality for diffs as build_diff produces them *)
+Theorem C13_fiddler_agrees_exact : forall (e : sigenv) (h : heap) (root : ref) (parents : list path)
+                                          (cs : list change),
+  targets_distinct e h root cs = true ->
+  paths_injective e h root cs = true ->
+  modifies_in_place e h root cs = true ->
+  NoDup parents -> (forall c, In c cs -> In (parent_of c) parents) ->
+  exec_fiddler e h root parents cs = apply_changes e h root cs.
+Proof. exact Fiddler_proofs.fiddler_agrees_exact. Qed.
+Print Assumptions C13_fiddler_agrees_exact.
+
+(* in general: equal up to the order of entries.  heap_equiv = Forall2 node_equiv, and node_equiv
+   relates two Buildables with the same kind and callable and Permutation-related argument stores
+   and tag maps, two dicts with Permutation-related items, and otherwise is equality. *)
+Theorem C13_fiddler_agrees : forall (e : sigenv) (h : heap) (root : ref) (parents : list path)
+                                    (cs : list change),
+  heap_wf h = true -> targets_distinct e h root cs = true ->
+  NoDup parents -> (forall c, In c cs -> In (parent_of c) parents) ->
+  heap_equiv (exec_fiddler e h root parents cs) (apply_changes e h root cs).
+Proof. exact Fiddler_proofs.fiddler_agrees. Qed.
+Print Assumptions C13_fiddler_agrees.
+
+(* as finite maps: heap_rel = Forall2 node_rel; node_rel on Buildables: same kind, same callable,
+   meq on the arguments and on the tag maps (both sides have distinct keys and dget agrees on every
+   key), tag sets sorted *)
+Theorem C13_fiddler_agrees_maps : forall (e : sigenv) (h : heap) (root : ref) (parents : list path)
+                                         (cs : list change),
+  heap_wf h = true -> targets_distinct e h root cs = true ->
+  NoDup parents -> (forall c, In c cs -> In (parent_of c) parents) ->
+  heap_rel (exec_fiddler e h root parents cs) (apply_changes e h root cs).
+Proof. exact Fiddler_proofs.fiddler_agrees_maps. Qed.
+Print Assumptions C13_fiddler_agrees_maps.
+
+(* in the normal form of the harness: every node but a dict has the same canon_node_tags on both
+   sides (sort_store on arguments, canon_tags on tag maps); a dict has the same items *)
+Theorem C13_fiddler_agrees_canon : forall (e : sigenv) (h : heap) (root : ref) (parents : list path)
+                                          (cs : list change),
+  heap_wf h = true -> targets_distinct e h root cs = true ->
+  NoDup parents -> (forall c, In c cs -> In (parent_of c) parents) ->
+  heap_canon_same (exec_fiddler e h root parents cs) (apply_changes e h root cs).
+Proof. exact Fiddler_proofs.fiddler_agrees_canon. Qed.
+Print Assumptions C13_fiddler_agrees_canon.
+
+Theorem C13_fiddler_agrees_sorted : forall (e : sigenv) (h : heap) (root : ref) (parents : list path)
+                                           (cs : list change),
+  heap_wf h = true -> no_dicts h = true -> targets_distinct e h root cs = true ->
+  NoDup parents -> (forall c, In c cs -> In (parent_of c) parents) ->
+  map canon_node_tags (exec_fiddler e h root parents cs)
+  = map canon_node_tags (apply_changes e h root cs).
+Proof. exact Fiddler_proofs.fiddler_agrees_sorted. Qed.
+Print Assumptions C13_fiddler_agrees_sorted.
+
+(* the per-node fact behind all of these: with pairwise different targets, any two orders of the
+   same operations give the same node (as finite maps) *)
+Theorem C13_operations_commute : forall (l l' : list change),
+  Permutation l l' -> NoDup (map target_of l) ->
+  forall n n', node_rel n n' -> node_rel (apply_ops l n) (apply_ops l' n').
+Proof. exact Fiddler_proofs.apply_ops_perm. Qed.
+Print Assumptions C13_operations_commute.
+
+(* exact equality fails in general: (a) a CModify of an argument that is not set appends it, and the
+   two orders append in different orders (one parent, distinct targets, well-formed heap) *)
+Theorem C13_fiddler_exact_refuted :
+  exists (e : sigenv) (h : heap) (root : ref) (cs : list change),
+    heap_wf h = true /\ targets_distinct e h root cs = true
+    /\ paths_injective e h root cs = true
+    /\ exec_fiddler e h root (parents_of cs) cs <> apply_changes e h root cs.
+Proof. exact Fiddler_proofs.fiddler_exact_refuted. Qed.
+Print Assumptions C13_fiddler_exact_refuted.
+
+(* (b) one object edited through two paths: the groups of the fiddler interleave differently from
+   the phases *)
+Theorem C13_fiddler_exact_refuted_alias :
+  exists (e : sigenv) (h : heap) (root : ref) (cs : list change),
+    heap_wf h = true /\ targets_distinct e h root cs = true
+    /\ modifies_in_place e h root cs = true
+    /\ exec_fiddler e h root (parents_of cs) cs <> apply_changes e h root cs.
+Proof. exact Fiddler_proofs.fiddler_exact_refuted_alias. Qed.
+Print Assumptions C13_fiddler_exact_refuted_alias.
+
+(* the hypothesis is needed: a SetValue and a ModifyValue of the same argument end with different
+   values (apply_diff: the set wins; the fiddler: the later statement wins) *)
+Theorem C13_needs_targets_distinct :
+  exists (e : sigenv) (h : heap) (root : ref) (cs : list change),
+    heap_wf h = true /\ paths_injective e h root cs = true /\ modifies_in_place e h root cs = true
+    /\ targets_distinct e h root cs = false
+    /\ ~ heap_equiv (exec_fiddler e h root (parents_of cs) cs) (apply_changes e h root cs).
+Proof. exact Fiddler_proofs.needs_targets_distinct. Qed.
+Print Assumptions C13_needs_targets_distinct.
+
+Theorem C13_needs_sorted_tags :
+  exists (e : sigenv) (h : heap) (root : ref) (cs : list change) (ps : list path),
+    heap_wf h = false /\ targets_distinct e h root cs = true
+    /\ NoDup ps /\ (forall c, In c cs -> In (parent_of c) ps)
+    /\ ~ heap_equiv (exec_fiddler e h root ps cs) (apply_changes e h root cs).
+Proof. exact Fiddler_proofs.needs_sorted_tags. Qed.
+Print Assumptions C13_needs_sorted_tags.
+
+(* ------------------------------------------------------------------------------------------ *)
+(* the order of the groups *)
+
+Theorem C13_any_parent_order : forall (e : sigenv) (h : heap) (root : ref) (parents1 parents2 : list path)
+                                      (cs : list change),
+  heap_wf h = true -> targets_distinct e h root cs = true ->
+  NoDup parents1 -> NoDup parents2 -> Permutation parents1 parents2 ->
+  heap_equiv (exec_fiddler e h root parents1 cs) (exec_fiddler e h root parents2 cs).
+Proof. exact Fiddler_proofs.any_parent_order. Qed.
+Print Assumptions C13_any_parent_order.
+
+Theorem C13_any_parent_order_sorted : forall (e : sigenv) (h : heap) (root : ref)
+                                             (parents1 parents2 : list path) (cs : list change),
+  heap_wf h = true -> no_dicts h = true -> targets_distinct e h root cs = true ->
+  NoDup parents1 -> NoDup parents2 -> Permutation parents1 parents2 ->
+  map canon_node_tags (exec_fiddler e h root parents1 cs)
+  = map canon_node_tags (exec_fiddler e h root parents2 cs).
+Proof. exact Fiddler_proofs.any_parent_order_sorted. Qed.
+Print Assumptions C13_any_parent_order_sorted.
+
+(* when no object is edited through two paths the heaps are equal, whatever the changes *)
+Theorem C13_any_parent_order_exact : forall (e : sigenv) (h : heap) (root : ref)
+                                            (parents1 parents2 : list path) (cs : list change),
+  paths_injective e h root cs = true ->
+  NoDup parents1 -> NoDup parents2 -> Permutation parents1 parents2 ->
+  exec_fiddler e h root parents1 cs = exec_fiddler e h root parents2 cs.
+Proof. exact Fiddler_proofs.any_parent_order_exact. Qed.
+Print Assumptions C13_any_parent_order_exact.
+
+Theorem C13_any_parent_order_exact_refuted :
+  exists (e : sigenv) (h : heap) (root : ref) (cs : list change) (ps1 ps2 : list path),
+    heap_wf h = true /\ targets_distinct e h root cs = true
+    /\ NoDup ps1 /\ NoDup ps2 /\ Permutation ps1 ps2
+    /\ exec_fiddler e h root ps1 cs <> exec_fiddler e h root ps2 cs.
+Proof. exact Fiddler_proofs.any_parent_order_exact_refuted. Qed.
+Print Assumptions C13_any_parent_order_exact_refuted.
+
+(* ------------------------------------------------------------------------------------------ *)
+(* The hypotheses hold of a concrete configuration: Config(f7, a1 = {"a": 1, "b": 2}, a2 = [10, 20],
+   a3 = Config(f8, a1 = 5) with tag 3 on a1) and a diff with all five kinds of change on three
+   parents. *)
+Definition ex_env : sigenv :=
+  [(7%N, [mkparam 1%N PosOrKw None false; mkparam 2%N PosOrKw None false;
+          mkparam 3%N PosOrKw (Some (RA ANone)) false]);
+   (8%N, [mkparam 1%N PosOrKw None false; mkparam 2%N PosOrKw None false])].
+Definition ex_heap : heap :=
+  [NDict [(AStr [97%N], RA (AInt 1)); (AStr [98%N], RA (AInt 2))];
+   NList [RA (AInt 10); RA (AInt 20)];
+   NBuildable BConfig 8%N [(KName 1%N, RA (AInt 5))] [(KName 1%N, [3%N])];
+   NBuildable BConfig 7%N [(KName 1%N, RP 0); (KName 2%N, RP 1); (KName 3%N, RP 2)] []].
+Definition ex_root : ref := RP 3.
+Definition ex_changes : list change :=
+  [CSet [PAttr 3%N] (LAttr 2%N) (RA (AInt 6));
+   CModify [PAttr 3%N] (LAttr 1%N) (RA (AInt 7));
+   CModify [PAttr 3%N] LFn (RA (ASym 9%N));
+   CAddTag [PAttr 3%N] 2%N 4%N;
+   CRemoveTag [PAttr 3%N] 1%N 3%N;
+   CDelete [PAttr 1%N] (LKey (AStr [97%N]));
+   CSet [PAttr 1%N] (LKey (AStr [99%N])) (RA (AInt 3));
+   CModify [PAttr 2%N] (LIndex 1) (RA (AInt 21))].
+
+Example C13_ex_hypotheses :
+  heap_wf ex_heap = true /\ targets_distinct ex_env ex_heap ex_root ex_changes = true
+  /\ paths_injective ex_env ex_heap ex_root ex_changes = true
+  /\ modifies_in_place ex_env ex_heap ex_root ex_changes = true
+  /\ parents_of ex_changes = [[PAttr 3%N]; [PAttr 1%N]; [PAttr 2%N]].
+Proof. vm_compute. repeat split; reflexivity. Qed.
+
+Example C13_ex_order :
+  fiddler_order (parents_of ex_changes) ex_changes
+  = [CRemoveTag [PAttr 3%N] 1%N 3%N;
+     CModify [PAttr 3%N] LFn (RA (ASym 9%N));
+     CSet [PAttr 3%N] (LAttr 2%N) (RA (AInt 6));
+     CModify [PAttr 3%N] (LAttr 1%N) (RA (AInt 7));
+     CAddTag [PAttr 3%N] 2%N 4%N;
+     CDelete [PAttr 1%N] (LKey (AStr [97%N]));
+     CSet [PAttr 1%N] (LKey (AStr [99%N])) (RA (AInt 3));
+     CModify [PAttr 2%N] (LIndex 1) (RA (AInt 21))].
+Proof. vm_compute. reflexivity. Qed.
+
+Example C13_ex_result :
+  exec_fiddler ex_env ex_heap ex_root (parents_of ex_changes) ex_changes
+  = [NDict [(AStr [98%N], RA (AInt 2)); (AStr [99%N], RA (AInt 3))];
+     NList [RA (AInt 10); RA (AInt 21)];
+     NBuildable BConfig 9%N [(KName 1%N, RA (AInt 7)); (KName 2%N, RA (AInt 6))]
+                [(KName 1%N, []); (KName 2%N, [4%N])];
+     NBuildable BConfig 7%N [(KName 1%N, RP 0); (KName 2%N, RP 1); (KName 3%N, RP 2)] []].
+Proof. vm_compute. reflexivity. Qed.
+
+(* the theorem on the example *)
+Example C13_ex_agrees :
+  exec_fiddler ex_env ex_heap ex_root (parents_of ex_changes) ex_changes
+  = apply_changes ex_env ex_heap ex_root ex_changes.
+Proof.
+  destruct C13_ex_hypotheses as (_ & H1 & H2 & H3 & _).
+  apply C13_fiddler_agrees_exact; try assumption; apply C13_parents_of_ok.
+Qed.
+
+(* one Buildable held twice by a list and edited through both paths (Fiddler_proofs.wb_heap,
+   wb_changes): heap_wf and targets_distinct hold, the heaps differ in the order of the appended
+   arguments and have the same normal form *)
+Example C13_ex_alias :
+  heap_wf wb_heap = true /\ no_dicts wb_heap = true
+  /\ targets_distinct [] wb_heap (RP 1) wb_changes = true
+  /\ paths_injective [] wb_heap (RP 1) wb_changes = false
+  /\ exec_fiddler [] wb_heap (RP 1) (parents_of wb_changes) wb_changes
+     = [NBuildable BConfig 8%N [(KName 1%N, RA (AInt 1)); (KName 3%N, RA (AInt 3)); (KName 2%N, RA (AInt 2))] [];
+        NList [RP 0; RP 0]]
+  /\ apply_changes [] wb_heap (RP 1) wb_changes
+     = [NBuildable BConfig 8%N [(KName 1%N, RA (AInt 1)); (KName 2%N, RA (AInt 2)); (KName 3%N, RA (AInt 3))] [];
+        NList [RP 0; RP 0]].
+Proof. vm_compute. repeat split; reflexivity. Qed.
+
+Example C13_ex_alias_sorted :
+  map canon_node_tags (exec_fiddler [] wb_heap (RP 1) (parents_of wb_changes) wb_changes)
+  = map canon_node_tags (apply_changes [] wb_heap (RP 1) wb_changes).
+Proof.
+  destruct C13_ex_alias as (H1 & H2 & H3 & _).
+  apply C13_fiddler_agrees_sorted; try assumption; apply C13_parents_of_ok.
+Qed.
